@@ -157,6 +157,7 @@ struct Program {
   int retval = -1;             // returned value (G or D), -1 = void
   int fuel = -1;               // fuel counter value (G4)
   int fuel_init = 40;
+  int phys_k = 0;              // physical mask register used by some masked ops (reserved via FuncFrame::add_unavailable_regs)
   std::vector<int> argbind;    // function argument index (after the buffer pointer) -> value or -1
   bool use_stack = false;
   std::string profile;
@@ -790,7 +791,9 @@ struct Interp {
           case 1: sethi(o.d, G(o.a, 1)); break;
           case 2: { if (P.vals[o.a].size < 2) fail("bad hi8 src"); SG(o.d, 1, hi(o.a)); break; }
           case 3: { if (P.vals[o.a].size < 2) fail("bad hi8 src"); sethi(o.d, hi(o.d) + hi(o.a)); break; }
-          default: { u64 l = G(o.d, 1), h = hi(o.d); SG(o.d, 1, h); sethi(o.d, l); break; }
+          case 4: { u64 l = G(o.d, 1), h = hi(o.d); SG(o.d, 1, h); sethi(o.d, l); break; }
+          case 5: { if (P.vals[o.a].size < 2) fail("bad hi8 src"); SG(o.d, 1, G(o.d, 1) ^ hi(o.a)); break; }
+          default: sethi(o.d, hi(o.d) ^ G(o.a, 1)); break;
         }
         break;
       }
@@ -853,6 +856,7 @@ struct Interp {
         break;
       }
       case O_VTERN: {
+        // vpternlogd d{k}{z}, a, s, imm ; mask: virtual c or physical register cc loaded from gp value b ; flag: zeroing
         u8 d[64], a[64], b[64], r[64]; VR(o.d, w, d); VR(o.a, w, a); VSRC(o.s, w, b);
         for (int i = 0; i < w; i++) {
           u8 x = 0;
@@ -861,6 +865,11 @@ struct Interp {
             x |= (u8)(((o.imm >> idx) & 1) << bit);
           }
           r[i] = x;
+        }
+        if (o.c >= 0 || o.cc) {
+          int n = w / 4;
+          u64 k = o.cc ? (G(o.b, 2) & ((1ull << n) - 1)) : KM(o.c, n);
+          for (int i = 0; i < n; i++) if (!((k >> i) & 1)) { if (o.flag) memset(r + 4 * i, 0, 4); else memcpy(r + 4 * i, d + 4 * i, 4); }
         }
         VW(o.d, w, r);
         break;
@@ -871,7 +880,7 @@ struct Interp {
         VR(o.a, w, a); VSRC(o.s, w, b); valu(o.sub, a, b, r, w);
         int esz = valu_esz(o.sub);
         int n = w / esz;
-        u64 k = KM(o.c, n);
+        u64 k = o.cc ? (G(o.b, 2) & ((1ull << n) - 1)) : KM(o.c, n);
         if (!o.flag) VR(o.d, w, d); else memset(d, 0, 64);
         for (int i = 0; i < n; i++) if ((k >> i) & 1) memcpy(d + i * esz, r + i * esz, esz);
         VW(o.d, w, d);
@@ -1091,8 +1100,8 @@ static void op_rw(const Program& P, const Op& o, RW& rw) {
     case O_VTOG: R(o.a); full(o.d, o.w2); break;
     case O_VPEXT: R(o.a); full(o.d, o.w2 == 8 ? 8 : 4); break;
     case O_VMSKB: R(o.a); full(o.d, 4); break;
-    case O_VTERN: R(o.d); R(o.a); rw.writes.push_back(o.d); break;
-    case O_VALUK: R(o.a); R(o.c); if (!o.flag) { R(o.d); rw.writes.push_back(o.d); } else W(o.d); break;
+    case O_VTERN: R(o.d); R(o.a); R(o.c); if (o.cc) R(o.b); rw.writes.push_back(o.d); break;
+    case O_VALUK: R(o.a); R(o.c); if (o.cc) R(o.b); if (!o.flag) { R(o.d); rw.writes.push_back(o.d); } else W(o.d); break;
     case O_VCMPK: R(o.a); R(o.c); W(o.d); break;
     case O_VM2V: case O_V2M: R(o.a); W(o.d); break;
     case O_KFROMG: R(o.a); W(o.d); break;
@@ -1496,10 +1505,12 @@ struct Gen {
       }
       default: {  // high-byte register operations
         if (g_avoid_fwd & 8) return false;
-        o.opc = O_HI8; o.sub = (u8)r.below(5); o.w = 1;
+        o.opc = O_HI8; o.sub = (u8)r.below(7); o.w = 1;
         o.d = pick(KIND_G, 2); if (o.d < 0) return false;
-        if (o.sub == 1) { o.a = pickG(1); if (o.a < 0) return false; }
-        if (o.sub == 2 || o.sub == 3) { o.a = pick(KIND_G, 2); if (o.a < 0) return false; }
+        if (o.sub == 1 || o.sub == 6) { o.a = r.chance(1, 3) ? o.d : pickG(1); if (o.a < 0) return false; }
+        if (o.sub == 2 || o.sub == 3 || o.sub == 5) { o.a = r.chance(1, 3) ? o.d : pick(KIND_G, 2); if (o.a < 0) return false; }
+        // one virtual register seen through two views (AL/AH) by a same-register idiom
+        if ((g_avoid_fwd & 2048) && (o.sub == 4 || ((o.sub == 5 || o.sub == 6) && o.a == o.d))) return false;
         o.imm = (i64)r.below(256);
         push(o); return true;
       }
@@ -1729,6 +1740,7 @@ struct Gen {
         o.opc = O_VTERN; o.w = (u8)dsz; w = dsz;
         o.a = pick(KIND_V, dsz); if (o.a < 0) return false;
         o.s = vsrc(true); if (o.s.t == S_NONE) return false;
+        if (r.chance(1, 4)) { o.a = d; o.s = SR(d); }
         o.imm = r.chance(1, 4) ? (r.chance(1, 2) ? 0xFF : 0x00) : (i64)r.below(256);
         if (o.s.t == S_REG && P.vals[o.s.v].size < dsz) return false;
         push(o); return true;
@@ -1740,7 +1752,7 @@ struct Gen {
     if (P.mode != MODE_AVX512) return false;
     Op o;
     static const u8 ws[] = { 1, 2, 4, 8 };
-    int kind = (int)r.below(14);
+    int kind = (int)r.below(16);
     switch (kind) {
       case 0: {
         o.opc = O_KFROMG; o.d = pick(KIND_K, 1); if (o.d < 0) return false;
@@ -1801,10 +1813,30 @@ struct Gen {
         o.d = pick(KIND_V, 16); if (o.d < 0) return false;
         o.w = P.vals[o.d].size;
         int n = o.w / (o.sub == VA_PADDQ || o.sub == VA_PSUBQ ? 8 : 4);
-        o.c = pick(KIND_K, (n + 7) / 8); if (o.c < 0) return false;
+        if (P.phys_k && r.chance(1, 3)) { o.cc = (u8)P.phys_k; o.b = pickG(2); if (o.b < 0) return false; }
+        else { o.c = pick(KIND_K, (n + 7) / 8); if (o.c < 0) return false; }
         o.a = pick(KIND_V, o.w); if (o.a < 0) return false;
         if (r.chance(1, 4)) o.s = SM(gen_mem(o.w, true));
         else { int v = pick(KIND_V, o.w); if (v < 0) return false; o.s = SR(v); }
+        if (r.chance(1, 5)) { o.a = o.d; o.s = SR(o.d); }
+        o.flag = (u8)r.chance(1, 3);
+        push(o); return true;
+      }
+      case 14: case 15: {  // masked vpternlog (merge / zero masking, virtual or physical mask register)
+        o.opc = O_VTERN;
+        o.d = pick(KIND_V, 16); if (o.d < 0) return false;
+        o.w = P.vals[o.d].size;
+        int n = o.w / 4;
+        if (P.phys_k && r.chance(1, 3)) { o.cc = (u8)P.phys_k; o.b = pickG(2); if (o.b < 0) return false; }
+        else { o.c = pick(KIND_K, (n + 7) / 8); if (o.c < 0) return false; }
+        if (r.chance(1, 2)) { o.a = o.d; o.s = SR(o.d); }
+        else {
+          o.a = pick(KIND_V, o.w); if (o.a < 0) return false;
+          if (r.chance(1, 4)) o.s = SM(gen_mem(o.w, true));
+          else { int v = pick(KIND_V, o.w); if (v < 0) return false; o.s = SR(v); }
+        }
+        o.imm = r.chance(1, 2) ? (r.chance(1, 2) ? 0xFF : 0x00) : (i64)r.below(256);
+        if ((g_avoid_fwd & 1024) && (o.imm == 0xFF || o.imm == 0x00)) o.imm = 0x96;
         o.flag = (u8)r.chance(1, 3);
         push(o); return true;
       }
@@ -2073,7 +2105,7 @@ static u64 shape_count() {
 
 static bool g_keep_unreachable = true;
 // constructs the generator avoids (set by the Python side when the corresponding probe shows a defect)
-enum : u32 { AV_CMPXCHG = 1, AV_SAMEREG_NARROW = 2, AV_RMW32_ON64 = 4, AV_HI8 = 8, AV_KMOVW_TOG = 16, AV_VECARG_AVX512 = 32, AV_OR_MEM_M1 = 64, AV_AND_ZERO = 128, AV_A64_TBL_MULTI = 256, AV_SAMEREG_NARROW_VEC = 512 };
+enum : u32 { AV_CMPXCHG = 1, AV_SAMEREG_NARROW = 2, AV_RMW32_ON64 = 4, AV_HI8 = 8, AV_KMOVW_TOG = 16, AV_VECARG_AVX512 = 32, AV_OR_MEM_M1 = 64, AV_AND_ZERO = 128, AV_A64_TBL_MULTI = 256, AV_SAMEREG_NARROW_VEC = 512, AV_TERN_MASKED = 1024, AV_HINT_VIEWS = 2048 };
 u32 g_avoid_fwd = 0;
 #define g_avoid g_avoid_fwd
 
@@ -2110,6 +2142,7 @@ static Program gen_program(Rng& r, const Profile& pf, i64 shape_idx) {
   if (a64 && P.sigclass == 2) P.sigclass = 1;
   P.cconv = (u8)r.below(4);
   P.fuel_init = (int)r.range(6, 40);
+  if (P.mode == MODE_AVX512 && !x32 && r.chance(1, 2)) P.phys_k = (int)r.range(1, 7);
 
   // ---- entry block ----
   int entry = g.new_block();
@@ -2257,8 +2290,8 @@ static std::string serialise(const Program& P) {
   std::string s;
   char b[256];
   static const char* archs[] = { "x64", "x86", "a64" };
-  snprintf(b, sizeof b, "program arch=%s mode=%d profile=%s shape=%s sig=%d cconv=%d ret=v%d fuel=v%d stack=%d\n", archs[P.arch], P.mode,
-           P.profile.c_str(), P.shape.c_str(), P.sigclass, P.cconv, P.retval, P.fuel, (int)P.use_stack);
+  snprintf(b, sizeof b, "program arch=%s mode=%d profile=%s shape=%s sig=%d cconv=%d ret=v%d fuel=v%d stack=%d physk=%d\n", archs[P.arch], P.mode,
+           P.profile.c_str(), P.shape.c_str(), P.sigclass, P.cconv, P.retval, P.fuel, (int)P.use_stack, P.phys_k);
   s += b;
   s += "vals:";
   for (size_t i = 0; i < P.vals.size(); i++) {
@@ -2548,7 +2581,9 @@ struct X86Emitter {
           case 1: E(Inst::kIdMov, dh, g(o.a, 1)); break;
           case 2: E(Inst::kIdMov, g(o.d, 1), regs[o.a].as<Gp>().r8_hi()); break;
           case 3: E(Inst::kIdAdd, dh, regs[o.a].as<Gp>().r8_hi()); break;
-          default: E(Inst::kIdXchg, g(o.d, 1), dh); break;
+          case 4: E(Inst::kIdXchg, g(o.d, 1), dh); break;
+          case 5: E(Inst::kIdXor, g(o.d, 1), regs[o.a].as<Gp>().r8_hi()); break;
+          default: E(Inst::kIdXor, dh, g(o.a, 1)); break;
         }
         break;
       }
@@ -2611,9 +2646,15 @@ struct X86Emitter {
         break;
       }
       case O_VMSKB: E(sse ? Inst::kIdPmovmskb : Inst::kIdVpmovmskb, g(o.d, 4), vv(o.a, w)); break;
-      case O_VTERN: E(Inst::kIdVpternlogd, vv(o.d, w), vv(o.a, w), vsrc(o.s, w), Imm(o.imm)); break;
+      case O_VTERN:
+        if (o.cc) { E(Inst::kIdKmovw, x86::k(o.cc), g(o.b, 4)); cc.k(x86::k(o.cc)); }
+        else if (o.c >= 0) cc.k(kk(o.c));
+        if ((o.cc || o.c >= 0) && o.flag) cc.z();
+        E(Inst::kIdVpternlogd, vv(o.d, w), vv(o.a, w), vsrc(o.s, w), Imm(o.imm));
+        break;
       case O_VALUK: {
-        cc.k(kk(o.c));
+        if (o.cc) { E(Inst::kIdKmovw, x86::k(o.cc), g(o.b, 4)); cc.k(x86::k(o.cc)); }
+        else cc.k(kk(o.c));
         if (o.flag) cc.z();
         E(kVAlu[o.sub].evex, vv(o.d, w), vv(o.a, w), vsrc(o.s, w));
         break;
@@ -2713,6 +2754,12 @@ struct X86Emitter {
     if (!fn) return;
     if (P.mode >= MODE_AVX) fn->frame().set_avx_enabled();
     if (P.mode >= MODE_AVX512) fn->frame().set_avx512_enabled();
+    if (P.phys_k) {
+      // the program writes a physical mask register itself: keep the allocator away from it when it also has virtual mask registers
+      bool has_virt_k = false;
+      for (const ValDef& d : P.vals) if (d.kind == KIND_K) has_virt_k = true;
+      if (has_virt_k) fn->frame().add_unavailable_regs(RegGroup::kMask, Support::bit_mask<RegMask>(uint32_t(P.phys_k)));
+    }
 
     bufp = cc.new_gp_ptr("buf");
     regs.resize(P.vals.size());
